@@ -214,8 +214,8 @@ def work_brackets(job):
 def work_mod(job):
     acc = Acc()
     ev = feval.Evaluator()
-    ns = list(range(-25, 26)) + [k / 10 for k in range(-255, 256, 7)] + [100, -100, 1e6 + 1, -1e6 - 1, 0.1, -0.1, 1234.5678]
-    ds = [1, 2, 3, 7, -1, -2, -3, -7, 0.5, -0.5, 0.1, -0.1, 2.5, 10, -10, 0]
+    ns = list(range(-25, 26)) + [k / 10 for k in range(-255, 256, 7)] + [100, -100, 1e6 + 1, -1e6 - 1, 0.1, -0.1, 1234.5678, 65536, 999.999, 1000000]
+    ds = [1, 2, 3, 7, -1, -2, -3, -7, 0.5, -0.5, 0.1, -0.1, 2.5, 10, -10, 0, 0.001, -0.001, 0.0003, 1e-6]
     for n in ns:
         for d in ds:
             env = {'A1': n, 'B1': d}
@@ -284,8 +284,46 @@ def work_artefacts(job):
     return acc.result()
 
 
+def work_fresh_thread(job):
+    """the same tie cases on a thread that never used the library (rounding must not depend on thread-local state)"""
+    import threading
+    acc = Acc()
+    box = {}
+
+    def body():
+        ev = feval.Evaluator()
+        out = []
+        for x, d in ((2.5, 0), (0.125, 2), (25, -1), (-6.5, 0), (1.005, 2), (305, -1), (0.5, 0), (-0.5, 0)):
+            for fn, mode in (('ROUND', 'half'), ('ROUNDUP', 'up'), ('ROUNDDOWN', 'down'), ('TRUNC', 'down')):
+                out.append((fn, x, d, ev.run(f'={fn}(A1,B1)', {'A1': x, 'B1': d}), rnd(F(x), d, mode)))
+        for f, e in (('=MOD(-7,3)', 2), ('=CEILING(0.3,0.1)', Fraction(3, 10)), ('=EVEN(-3)', -4), ('=TEXT(2.5,"0")', None)):
+            out.append((f, None, None, ev.run(f, {}), e))
+        box['out'] = out
+    t = threading.Thread(target=body)
+    t.start()
+    t.join()
+    for fn, x, d, o, e in box.get('out', []):
+        acc.add('evaluations')
+        acc.add('states')
+        acc.add('distinct_nontrivial')
+        if e is None:
+            if o[:2] != ('ok', '3'):
+                acc.violation(dict(kind='thread', fn='TEXT', verdict='wrong-value', observed=jsonable(o[:2])), f'{fn} on a fresh thread = {o[:2]!r}, expected 3')
+            continue
+        ok = o[0] == 'ok' and (same(o[1], e) if isinstance(e, Fraction) else same(o[1], Fraction(e)))
+        if not ok:
+            acc.violation(dict(kind='thread', fn=fn.strip('=').split('(')[0], verdict='wrong-value', x=x, digits=d, observed=jsonable(o[:2]),
+                               expected=fl(Fraction(e))),
+                          f'{fn}({x!r},{d}) evaluated on a fresh thread = {o[:2]!r}, expected {fl(Fraction(e))!r}')
+    if not box.get('out'):
+        acc.violation(dict(kind='thread', fn='thread', verdict='raised'), 'the fresh thread died')
+    acc.counts['transitions'] = acc.counts.get('evaluations', 0)
+    return acc.result()
+
+
 def run(ctx):
     m = 64
+    ctx.pmap(work_fresh_thread, [(0,), (1,)], timeout=600)
     ctx.pmap(work_round, [((k + ctx.seed) % m, m, ctx.thorough) for k in range(m)], timeout=6000)
     ctx.pmap(work_brackets, [(k, 32, ctx.thorough) for k in range(32)], timeout=6000)
     ctx.pmap(work_mod, [(0,)], timeout=1200)
@@ -314,6 +352,10 @@ def replay(case):
         o = ev.run(f"={case['fn']}(A1,B1)", {'A1': case['x'], 'B1': case['sig']})
         exp = bracket_expected(case['fn'], F(case['x']), F(case['sig']))
         return True, f"={case['fn']}({case['x']!r},{case['sig']!r}) -> {o[:2]!r}; acceptable {[e if isinstance(e, str) else fl(e) for e in (exp or [])]}"
+    if case['kind'] == 'thread':
+        r = work_fresh_thread((0,))
+        hits = [m for c, m in r['violations']]
+        return bool(hits), '\n'.join(hits[:3]) or 'no violation'
     r = work_mod((0,))
     hits = [m for c, m in r['violations'] if c['n'] == case['n'] and c['d'] == case['d']]
     return bool(hits), '\n'.join(hits[:2]) or 'no violation'
